@@ -157,6 +157,38 @@ def m4(ctx):
         rets = [b2 for b2 in reach if s.blocks[b2]['term']['k'] == 'return']
         if rets:
             ctx.violate(SPIN, None, 'spin_cond can return without the condition having been observed true (lock() would return without owning the lock)', at=s.blocks[rets[0]]['term'].get('at'), sig='early-return')
+        # once cond() held, return is reached directly: no further cond() call, no loop.  (The condition acquires
+        # the lock as a side effect; evaluating it again can never succeed - the caller would spin for ever.)
+        condblocks = set()
+        for bi in s.normal_blocks():
+            tt = s.blocks[bi]['term']
+            if tt['k'] == 'call' and tt.get('fn') and canon(tt['fn']['path']) in ('std::ops::Fn::call', 'std::ops::FnMut::call_mut', 'std::ops::FnOnce::call_once'):
+                condblocks.add(bi)
+        for (src, dst) in sorted(removed):
+            ctx.oblige(1, sample='cond()==true edge bb%d->bb%d leads straight to return' % (src, dst))
+            seen = set()
+            stack = [dst]
+            bad = None
+            on_path_cycle = False
+            while stack and bad is None:
+                x = stack.pop()
+                if x in seen:
+                    continue
+                seen.add(x)
+                if x in condblocks:
+                    bad = ('cond', x)
+                    break
+                for y in s.succs(x):
+                    stack.append(y)
+            if bad is None:
+                # any cycle among the blocks reachable after success?
+                for comp in s.sccs():
+                    if (len(comp) > 1 or comp[0] in s.succs(comp[0])) and set(comp) & seen:
+                        bad = ('loop', comp[0])
+                        break
+            if bad is not None:
+                ctx.violate(SPIN, None, 'after the condition held (edge bb%d->bb%d) spin_cond does not return directly but %s: with try_lock as the condition the lock is already owned, so it can never hold again and lock() never returns' % (
+                    src, dst, 're-evaluates the condition' if bad[0] == 'cond' else 'enters a loop'), at=s.blocks[bad[1]]['term'].get('at'), sig='no-return-after-success')
 
 
 def cond_true_edges(body):
